@@ -40,6 +40,9 @@ class Pkg:
         self.cmd = cmd
         self.files = {}          # source file name -> [type names] in declaration order
         self.genlines = {}       # source file name -> [command lines] (//go:generate comments)
+        self.extra = {}          # map only: source file name -> [(source type, destination type)]: types that only
+                                 # an explicit `-type=S -to=D` run maps (no destination type of the same name, or an
+                                 # unexported source type): -file and -type=* do not cover them
 
     def all_types(self):
         return [t for f in sorted(self.files) for t in self.files[f]]
@@ -48,7 +51,13 @@ class Pkg:
         for f, ts in self.files.items():
             if t in ts:
                 return f
+        for f, xs in self.extra.items():
+            if t in [s for s, _ in xs]:
+                return f
         return ""
+
+    def extras(self):
+        return [x for f in sorted(self.extra) for x in self.extra[f]]
 
 
 def gen_pkg(rng, cmd):
@@ -68,6 +77,16 @@ def gen_pkg(rng, cmd):
                 ts.append(pool.pop())
         p.files[f] = ts
         p.genlines[f] = []
+    if cmd == "map":
+        xs = []
+        if rng.random() < 0.6:
+            d = pool.pop()
+            xs.append((d + "PO", d))
+        if rng.random() < 0.4:
+            d = pool.pop()
+            xs.append((d[0].lower() + d[1:] + "Row", d + "Row"))
+        for x in xs:
+            p.extra.setdefault(rng.choice(names), []).append(x)
     return p
 
 
@@ -102,6 +121,8 @@ def render_pkg(p):
         for t in p.files[f]:
             txt += _type_text(p.cmd, t, k) + "\n"
             k += 1
+        for j, (s, _) in enumerate(p.extra.get(f, [])):
+            txt += _type_text("map", s, j) + "\n"
         out["p/" + f] = txt
     if p.cmd == "map":
         txt = "package dest\n\n"
@@ -110,6 +131,9 @@ def render_pkg(p):
             for t in p.files[f]:
                 txt += _type_text("map", t, k) + "\n"
                 k += 1
+        for f in sorted(p.extra):
+            for j, (_, d) in enumerate(p.extra[f]):
+                txt += _type_text("map", d, j) + "\n"
         out["dest/d.go"] = txt
     return out
 
@@ -134,6 +158,7 @@ class Inv:
     def __init__(self, p, mode, invoke, flags, types=None, file=None, genfile_src=None):
         self.p, self.mode, self.invoke, self.flags = p, mode, invoke, flags
         self.types, self.file, self.genfile_src = types, file, genfile_src
+        self.to = None
 
     def dirarg(self, root):
         return {"pkg": None, "pkgdot": ".", "parent": "./p", "parent_bare": "p",
@@ -143,6 +168,9 @@ class Inv:
         a = [self.p.cmd] + list(self.flags)
         if self.mode == "types":
             a.append("-type=" + ",".join(self.types))
+        elif self.mode == "types_to":
+            a.append("-type=" + self.types[0])
+            a.append("-to=" + self.to)
         elif self.mode in ("file", "filesep"):
             a.append("-file=" + self.file)
         elif self.mode == "star_space":
@@ -171,7 +199,7 @@ class Inv:
     def selection(self):
         """(source file, type name) per expected output; Python mirror of fileName"""
         p = self.p
-        if self.mode == "types":
+        if self.mode in ("types", "types_to"):
             return [(p.decl_file(t), t) for t in self.types]
         if self.mode == "file":
             return [(self.file, "")]
@@ -185,12 +213,19 @@ class Inv:
 
 
 def gen_inv(rng, p, root_for_abs, mode=None, invoke=None, history=False):
+    if mode is None or mode == "types":
+        # map: an explicit run for a type that -file / -type=* do not cover
+        if p.cmd == "map" and p.extras() and rng.random() < (0.5 if history else 0.15):
+            mode = "types_to"
     mode = mode or rng.choice(["types", "types", "file", "filesep", "star", "star", "star", "starsep",
                                "star_noline", "star_space"])
     invoke = "pkg" if history else (invoke or rng.choice(INVOKE))
     flags = extra_flags(rng, p.cmd)
     inv = Inv(p, mode, invoke, flags)
-    if mode == "types":
+    if mode == "types_to":
+        s, d = rng.choice(p.extras())
+        inv.types, inv.to = [s], d
+    elif mode == "types":
         ts = p.all_types()
         inv.types = rng.sample(ts, rng.randint(1, min(3, len(ts))))
     elif mode in ("file", "filesep"):
@@ -576,6 +611,14 @@ def run_traced(shoot, cwd, args, tracefile, timeout=40):
         except Exception:
             pass
         return {"rc": 124, "out": "", "err": "timeout", "timed_out": True}
+
+
+MARKER = re.compile(rb"^func \((?:\w+\s+)?\*?(\w+)(?:\[[^\]]*\])?\) Shoot(?:New|Enum|Rest|Map)\(\)", re.M)
+
+
+def type_tags(content):
+    """the types a generated file is for: the receivers of its marker methods"""
+    return sorted({m.decode() for m in MARKER.findall(content)})
 
 
 # ------------------------------------------------------------------ Coq terms
